@@ -108,7 +108,7 @@ def parseCtx (flags mark : String) : Option Ctx :=
     else if m == "maxrec" then some .maxRecursion else if m == "canceled" then some .canceled
     else if m == "deadline" then some .deadline else if m == "other" then some .other else none
   marked.map fun mk =>
-    { ended := fs.contains 'e' || fs.contains 'd', bestEffort := fs.contains 'b', workLimit := fs.contains 'w', marked := mk }
+    { ended := fs.contains 'e' || fs.contains 'd' || fs.contains 'p', bestEffort := fs.contains 'b', workLimit := fs.contains 'w', marked := mk }
 
 def parseCause (c : String) : Option Cause :=
   (parseCtx "-" c).map (·.marked)
